@@ -92,6 +92,7 @@ type Machine struct {
 	steps    int
 	MaxSteps int
 	globals  *env
+	args     []string
 }
 
 func FormatFloat(v float64) string {
@@ -144,7 +145,7 @@ func Show(v Value) string {
 
 // Run executes the program under the reference semantics.
 func (pr *Program) Run() (o Outcome, unspec *Unspecified) {
-	m := &Machine{MaxSteps: 2_000_000}
+	m := &Machine{MaxSteps: 2_000_000, args: pr.Args}
 	defer func() {
 		if r := recover(); r != nil {
 			switch x := r.(type) {
@@ -666,13 +667,6 @@ func cmpNum(op string, a, b Value) bool {
 	panic("cmpNum")
 }
 
-func asList(v Value, t *Type) *ListV {
-	if l, ok := v.(*ListV); ok {
-		return l
-	}
-	return &ListV{T: ListOf(t), El: []Value{v}}
-}
-
 func (m *Machine) eval(e *env, ex Expr) Value {
 	m.tick()
 	switch x := ex.(type) {
@@ -788,6 +782,15 @@ func (m *Machine) eval(e *env, ex Expr) Value {
 		return r
 	case *DefaultOf:
 		return DefaultValue(x.T)
+	case *Arg:
+		if x.I >= len(m.args) {
+			panic(rtError{"missing argument"})
+		}
+		n, ok := parseIntText(m.args[x.I])
+		if !ok {
+			panic(Unspecified{"argument is not a plain integer"})
+		}
+		return n
 	}
 	panic(fmt.Sprintf("cdm eval: %T", ex))
 }
@@ -902,11 +905,14 @@ func (m *Machine) bin(e *env, x *Bin) Value {
 			return rs
 		}
 		l := &ListV{T: x.T}
-		for _, el := range asList(a, lt).El {
-			l.El = append(l.El, Copy(el))
-		}
-		for _, el := range asList(b, rt).El {
-			l.El = append(l.El, Copy(el))
+		for i, v := range []Value{a, b} {
+			if []*Type{lt, rt}[i].Eq(x.T) { // a list operand
+				for _, el := range v.(*ListV).El {
+					l.El = append(l.El, Copy(el))
+				}
+			} else { // an element operand (possibly itself a list, for nested lists)
+				l.El = append(l.El, Copy(v))
+			}
 		}
 		return l
 	case "index":
@@ -935,7 +941,7 @@ func (m *Machine) bin(e *env, x *Bin) Value {
 	case "bis":
 		return slice(a, 1, toInt(b))
 	}
-	panic("cdm bin " + x.Op)
+	panic(fmt.Sprintf("cdm bin %s on %T / %T: %s", x.Op, a, b, Src(x)))
 }
 
 func (m *Machine) call(e *env, x *Call) Value {
